@@ -343,6 +343,10 @@ def rule_child(ctx, rep, rid="C16.child", callrcu_only=False):
     w = m.fn("urcu_workqueue_create_worker")
     if w is None:
         raise Broken("urcu_workqueue_create_worker vanished")
+    if not any(i.op == "call" and i.callee == "pthread_create" for i in w.all_insts()):
+        wf = ctx.mod("cds", "flat").fn("urcu_workqueue_create_worker")      # thread start extracted into a static helper: decide on the flattened entry point
+        if wf is not None:
+            w = wf
     rep.touch(w)
     pc = pat.calls(w, "pthread_create")
     fs = [s for s in pat.stores(w, "urcu_workqueue.flags")]
